@@ -2,7 +2,7 @@
 mod common;
 use libfuzzer_sys::fuzz_target;
 
-const PROPS: &[&str] = &["C01", "C02", "C03", "C20", "C16", "C08", "C09", "C11", "C12", "C05", "C07"];
+const PROPS: &[&str] = &["C01", "C02", "C03", "C20", "C16", "C08", "C09", "C11", "C12", "C05", "C07", "C04", "C06", "C10", "C17", "C19"];
 
 fuzz_target!(|data: &[u8]| {
     common::one(PROPS, data);
